@@ -35,6 +35,7 @@ type Prog struct {
 	sentinel map[*ssa.Global]int
 	notes    map[string]bool
 	tier     string
+	findings []*Finding
 	constObjs map[*ssa.Global]string
 }
 
